@@ -252,6 +252,13 @@ def graph_matches_model(net, U, model):
             for n, o in table.items():
                 if have[n] is not objs[o]:
                     problems.append(f"{entry} at {n} is {U.name_of(have[n])}, expected {o}")
+    # the attachments as the network itself reports them (per-node accessors)
+    for acc_name, table, objs in (("origins_by_node", model.orig, U.origins), ("destinations_by_node", model.dest, U.dests)):
+        if len(set(table.values())) != len(table):
+            continue  # one object attached to two nodes (an invalid network): the origin->node dictionaries cannot represent it
+        have = {U.name_of(n): o for n, o in getattr(net, acc_name).items()}
+        if set(have) != set(table) or any(have[n] is not objs[o] for n, o in table.items()):
+            problems.append(f"net.{acc_name} reports {sorted((n, U.name_of(o)) for n, o in have.items())}, attached were {sorted(table.items())}")
     return problems
 
 
